@@ -268,6 +268,21 @@ theorem c01_sob (zb s b : ℝ) :
   refine ⟨fun h => by simp [ratioSOB, h], fun h => by simp [ratioSOB, h], fun h => ?_⟩
   simp [ratioSOB, h, div_eq_zero_iff, ne_of_gt h]
 
+/-- **`N` is kept under event selection**: the total event count seen by the likelihood does not
+depend on how many events the selection keeps — with an explicit `n_events` and with the default
+(number of raw events) alike — and the pure-background count is `N - N'`, non-negative whenever the
+selection only drops events. -/
+theorem c01_n_kept_under_selection (arg : Option ℕ) (nRaw nSel nSel' : ℕ) :
+    (trialCounts arg nRaw nSel).1 = (trialCounts arg nRaw nSel').1 ∧
+    (trialCounts none nRaw nSel).1 = nRaw ∧
+    (trialCounts arg nRaw nSel).2.1 = nSel ∧
+    (trialCounts arg nRaw nSel).2.2 = ((trialCounts arg nRaw nSel).1 : ℤ) - (nSel : ℤ) ∧
+    (nSel ≤ nRaw → 0 ≤ (trialCounts none nRaw nSel).2.2) := by
+  refine ⟨rfl, rfl, rfl, rfl, ?_⟩
+  intro h
+  simp only [trialCounts]
+  omega
+
 /-! ### non-vacuity: the hypotheses used above are satisfiable by ordinary inputs -/
 
 example : (0 : ℝ) < 1e-3 ∧ (1e-3 : ℝ) < 1 := by norm_num
